@@ -1,6 +1,73 @@
-import Asts.Spec.Reconcile
+import Asts.Proofs.L1_c_C14
 
-/-! # C14 — property theorems (under construction) -/
+/-! # C14 — the Parallel policy never waits on other pods when scaling
+
+Under `podManagementPolicy: Parallel`, with no API error, one `updateStatefulSet` issues a creation for every desired ordinal
+that is vacant (or holds a Failed/Succeeded pod, which it first deletes) and a deletion for every live pod outside the
+desired set — in that same reconcile, whatever the health of the other pods — while the rolling update still takes down at
+most one pod. `C14` is the monitor of `Spec/Reconcile.lean`; the theorem is stated under exactly the preconditions under which
+`monitorRc` evaluates it (`Parallel`, empty fault plan, not deleting, `wfSnapshot`), plus what the driver guarantees by
+construction (pod ids are their positions, fewer than `freshId` pods — `classify` looks pods up by id) and the C15 ranges
+(ordinals and replica count below `MaxInt32`), which are what makes the outcome `.ok` rather than a panic. -/
 namespace Asts.C14
+open Asts.L1c
+
+theorem C14_holds (v : SetView) (cur upd : String) (pods : List Pod) (f : Faults) (r : Int)
+    (hr : v.replicas = some r) (h0 : 0 ≤ r)
+    (hpar : v.parallel = true) (hf : f = []) (hdel : v.deleting = false) (hwf : wfSnapshot pods = true)
+    (hid : ∀ (i : Nat) (p : Pod), pods[i]? = some p → p.id = i) (hlen : pods.length ≤ freshId)
+    (hb : (maxReplicaAndSlots r v.slots).1 ≤ maxInt32) (hord : ∀ p ∈ pods, p.ord < maxInt32) :
+    (updateStatefulSet v cur upd pods f).2 = .ok ∧
+    C14 v pods (observe (updateStatefulSet v cur upd pods f).1.acts) = true := by
+  subst hf
+  exact updateStatefulSet_par v cur upd pods r hr h0 hpar hdel (snap_of_wf hwf hid hlen) hb hord
+
+/-- `Prop` reading: the creations are exactly (and in order) the desired ordinals that are vacant or hold a Failed/Succeeded
+    pod; the scale-in deletions are, up to order, exactly the non-terminating pods outside the desired set; and at most one
+    pod is deleted for the rolling update. -/
+theorem C14_prop (v : SetView) (cur upd : String) (pods : List Pod) (f : Faults) (r : Int)
+    (hr : v.replicas = some r) (h0 : 0 ≤ r)
+    (hpar : v.parallel = true) (hf : f = []) (hdel : v.deleting = false) (hwf : wfSnapshot pods = true)
+    (hid : ∀ (i : Nat) (p : Pod), pods[i]? = some p → p.id = i) (hlen : pods.length ≤ freshId)
+    (hb : (maxReplicaAndSlots r v.slots).1 ≤ maxInt32) (hord : ∀ p ∈ pods, p.ord < maxInt32) :
+    let acts := observe (updateStatefulSet v cur upd pods f).1.acts
+    let D := desired r v.slots
+    createOrds acts = D.filter (fun o => match podAt pods o with | none => true | some p => p.failed || p.succeeded) ∧
+    (scaleDeletes D pods acts).Perm (((condemnedSpec D pods).filter (fun c => !c.terminating)).map (·.ord)) ∧
+    (updateDeletes D pods acts).length ≤ 1 := by
+  have h := (C14_holds v cur upd pods f r hr h0 hpar hf hdel hwf hid hlen hb hord).2
+  have hrep : replicasOf v = r := by simp [replicasOf, hr]
+  simp only [Asts.C14, hrep, Bool.and_eq_true, beq_iff_eq, decide_eq_true_eq] at h
+  refine ⟨h.1.1, ?_, h.2⟩
+  have := h.1.2
+  have h1 := List.mergeSort_perm (scaleDeletes (desired r v.slots) pods (observe (updateStatefulSet v cur upd pods f).1.acts))
+    (fun a b => decide (a ≤ b))
+  rw [this] at h1
+  exact h1.symm.trans (List.mergeSort_perm _ _)
+
+/-- non-vacuity: replicas 4 with slot 1 (desired 0,2,3,4); ordinal 0 unready, 2 Failed, 3 and 4 vacant; live pods at 1 (a
+    slot) and 7, a terminating pod at 9 — everything unhealthy, and still 3 creations and 2 scale-in deletions at once -/
+def exPods : List Pod :=
+  [ { id := 0, ord := 0, phase := .pending, ready := false, terminating := false, rev := "a", idOk := true, stOk := true },
+    { id := 1, ord := 2, phase := .failed, ready := false, terminating := false, rev := "a", idOk := true, stOk := true },
+    { id := 2, ord := 1, phase := .running, ready := false, terminating := false, rev := "a", idOk := true, stOk := true },
+    { id := 3, ord := 7, phase := .running, ready := true, terminating := false, rev := "a", idOk := true, stOk := true },
+    { id := 4, ord := 9, phase := .running, ready := true, terminating := true, rev := "a", idOk := true, stOk := true } ]
+
+def exView : SetView :=
+  { replicas := some 4, slots := [1], parallel := true, strat := .rolling, ru := some (some 0), deleting := false,
+    generation := 1, stCurrentReplicas := 0 }
+
+example : exView.replicas = some 4 ∧ wfSnapshot exPods = true ∧
+    (maxReplicaAndSlots 4 exView.slots).1 ≤ maxInt32 ∧ (∀ p ∈ exPods, p.ord < maxInt32) ∧
+    createOrds (observe (updateStatefulSet exView "a" "b" exPods []).1.acts) = [2, 3, 4] ∧
+    scaleDeletes (desired 4 [1]) exPods (observe (updateStatefulSet exView "a" "b" exPods []).1.acts) = [7, 1] := by
+  decide
+
+example : ∀ (i : Nat) (p : Pod), exPods[i]? = some p → p.id = i := by
+  intro i p h
+  match i, h with
+  | 0, h | 1, h | 2, h | 3, h | 4, h => cases h; rfl
+  | n + 5, h => simp [exPods] at h
 
 end Asts.C14
